@@ -424,7 +424,7 @@ func relaySession(r *ev.Run, rng *gen.Rand, sidx int, big *bigCase) {
 		r2, d2 := cut(recv, dbOut)
 		if !bytes.Equal(r2, d2) {
 			at := firstDiff(recv, dbOut)
-			r.Violation(fmt.Sprintf("mysql relay: database->client stream altered: config=%s at-message=%s%s", cfgName, msgAt(dbOut, at, false), bigClass), detail(map[string]interface{}{"offset": at, "db_sent_len": len(dbOut), "client_got_len": len(recv), "db_sent_at": ev.Hex(window(dbOut, at)), "client_got_at": ev.Hex(window(recv, at))}))
+			r.Violation(fmt.Sprintf("mysql relay: database->client stream altered: config=%s at-message=%s%s", cfgName, serverMsgAt(srv, at), bigClass), detail(map[string]interface{}{"offset": at, "db_sent_len": len(dbOut), "client_got_len": len(recv), "db_sent_at": ev.Hex(window(dbOut, at)), "client_got_at": ev.Hex(window(recv, at))}))
 			return false
 		}
 		return true
@@ -862,4 +862,65 @@ func msgAt(stream []byte, at int, client bool) string {
 		pos += size
 	}
 	return "beyond-parsed-part"
+}
+
+// serverMsgAt names what the database sent at offset `at` of its output stream on connection 1, using the server's own
+// record of the packets it emitted: the packet kind and, inside a row, the type id of the field that contains the offset.
+func serverMsgAt(srv *fakemysql.Server, at int) string {
+	pos := 0
+	var defs []fakemysql.ColDef
+	for _, m := range srv.SentLog() {
+		if m.Conn != 1 {
+			continue
+		}
+		switch m.Kind {
+		case "ColumnCount", "PrepareOK":
+			defs = nil
+		case "ColumnDef":
+			if cd, err := fakemysql.DecodeColDef(m.Payload); err == nil {
+				defs = append(defs, cd)
+			}
+		}
+		size := len(m.Payload) + 4*m.Packets
+		if at >= pos+size {
+			pos += size
+			continue
+		}
+		if m.Kind != "TextRow" && m.Kind != "BinaryRow" {
+			return m.Kind
+		}
+		if m.Packets > 1 {
+			return m.Kind + "(multi-packet)"
+		}
+		off := at - pos - 4 // offset inside the payload
+		if off < 0 {
+			return m.Kind + "(header)"
+		}
+		var fields []fakemysql.Field
+		var err error
+		types := make([]byte, len(defs))
+		for i := range defs {
+			types[i] = defs[i].Type
+		}
+		if m.Kind == "TextRow" {
+			fields, err = fakemysql.DecodeTextRow(m.Payload, len(defs))
+		} else {
+			fields, err = fakemysql.DecodeBinaryRow(m.Payload, types)
+		}
+		if err != nil {
+			return m.Kind
+		}
+		// fields alias the payload: locate by address arithmetic on slice offsets
+		for i, f := range fields {
+			if f.Null || len(f.Data) == 0 {
+				continue
+			}
+			start := cap(m.Payload) - cap(f.Data)
+			if off < start+len(f.Data) {
+				return fmt.Sprintf("%s(field-type=%d)", m.Kind, types[i])
+			}
+		}
+		return m.Kind
+	}
+	return "beyond-recorded-part"
 }
